@@ -51,14 +51,18 @@ class Abort(Exception):
 
 
 def _has_unordered_input(v) -> bool:
-    """True if a value AST contains an unordered collection of >= 2 elements."""
-    if isinstance(v, dict):
-        for tag in ("$set", "$frozenset"):
-            if tag in v and len(v[tag]) >= 2:
-                return True
-        return any(_has_unordered_input(x) for x in v.values())
-    if isinstance(v, list):
-        return any(_has_unordered_input(x) for x in v)
+    """True if a value AST contains an unordered collection of >= 2 elements (iterative:
+    inputs may be nested hundreds of levels deep)."""
+    stack = [v]
+    while stack:
+        cur = stack.pop()
+        if isinstance(cur, dict):
+            for tag in ("$set", "$frozenset"):
+                if tag in cur and len(cur[tag]) >= 2:
+                    return True
+            stack.extend(cur.values())
+        elif isinstance(cur, list):
+            stack.extend(cur)
     return False
 
 
@@ -183,7 +187,14 @@ class Session:
                 self.results[sid] = out.value
             return out
         if op == "unmarshal":
-            x = self.V(step["x"])
+            try:
+                x = self.V(step["x"])
+            except ValueError as e:
+                if str(e) != "rejected":
+                    raise
+                # the input itself is an instance a (generated) user constructor refuses to build
+                self.probes["input_rejected_by_user_constructor"] += 1
+                return Outcome(False, exc=e)
             self.inputs[sid] = x
             out = self.guarded(self.call, step, typelib.unmarshal, self.T(step), x)
             if out.ok:
@@ -362,8 +373,12 @@ class Session:
     def hits_total(self) -> int:
         return sum(o.cache_info().hits for _, o in self.memos.items)
 
-    def log_step(self, i: int, step: dict, out: Outcome | None, *, nontrivial: bool | None = None,
-                 comparable: bool = True, pre_sig: str = "", hit_delta: int = 0, unordered: bool | None = None):
+    def log_step(self, *a, **kw):
+        with model.headroom():  # harness-only code: deep inputs must not exhaust *its* stack
+            return self._log_step(*a, **kw)
+
+    def _log_step(self, i: int, step: dict, out: Outcome | None, *, nontrivial: bool | None = None,
+                  comparable: bool = True, pre_sig: str = "", hit_delta: int = 0, unordered: bool | None = None):
         opd = core.digest({k: v for k, v in step.items() if k != "id"})
         if unordered is None:
             unordered = False
